@@ -115,7 +115,16 @@ class CvxpyPathTask(Task):
         st = self.structure
         kw = {"hermitian": {"hermitian": True}, "symmetric": {"symmetric": True}, "complex": {"complex": True}, "real": {}}[st]
         X = cvxpy.Variable((self.rows, self.cols), **kw)
-        expr = self.f(X)          # the real function on a cvxpy Variable
+        try:
+            expr = self.f(X)          # the real function on a cvxpy Variable
+        except Exception as e:        # noqa: BLE001 - the variable path refuses what the numeric path accepts?
+            xnum = self._generic_point(seed)
+            want = np.array(self.f(np.array(xnum)))   # numeric path on a matrix of the same shape and structure
+            rec["disagreements_checked"] = 1
+            rec["status"] = "violation"
+            rec["violation"] = {"source": "variable path raises", "inputs": {"X": jsonable(xnum)},
+                                "actual": f"{type(e).__name__}: {e}"[:300], "expected": jsonable(want)}
+            return
         const, terms = cvxpy_affine(expr, [X])
         rec["programs"] = 1
         ctx = Ctx("lra", self.name)
@@ -155,10 +164,21 @@ class CvxpyPathTask(Task):
                 rec["status"] = "violation"
                 rec["violation"] = {"source": "solver model", "inputs": {"X": jsonable(xnum)}, "actual": jsonable(got), "expected": jsonable(want)}
             else:
-                rec["status"] = "error"
-                rec["notes"].append("model did not reproduce")
+                rec["status"] = "inconclusive"
+                rec["notes"].append("candidate counterexample did not reproduce on the real code")
         else:
             rec["notes"].append(f"solver: {r}")
+
+    def _generic_point(self, seed):
+        rng = np.random.default_rng(seed)
+        a = rng.integers(-8, 9, size=(self.rows, self.cols)) / 4.0
+        if self.structure in ("hermitian", "complex"):
+            a = a + 1j * rng.integers(-8, 9, size=(self.rows, self.cols)) / 4.0
+        if self.structure == "hermitian":
+            a = (a + a.conj().T) / 2
+        if self.structure == "symmetric":
+            a = (a + a.T) / 2
+        return a
 
     def replay(self, rp):
         import cvxpy
@@ -166,7 +186,11 @@ class CvxpyPathTask(Task):
         st = self.structure
         kw = {"hermitian": {"hermitian": True}, "symmetric": {"symmetric": True}, "complex": {"complex": True}, "real": {}}[st]
         X = cvxpy.Variable((self.rows, self.cols), **kw)
-        expr = self.f(X)
+        try:
+            expr = self.f(X)
+        except Exception:             # noqa: BLE001
+            self.f(np.array(from_jsonable(rp["violation"]["inputs"]["X"])))
+            return False
         xnum = np.array(from_jsonable(rp["violation"]["inputs"]["X"]))
         X.value = xnum
         got = np.array(expr.value)
